@@ -93,6 +93,14 @@ RAddrVecs ==
   \o Cross2(Secs, << 0, 999999, 1000000, 999999999 >>, LAMBDA s, ns :
      One(B("NewRouterAddress", [cost |-> 5, exp |-> PadTo(s, 8), expneg |-> FALSE, expns |-> ns, style |-> << 83, 83, 85, 50 >>, pairs |-> MapSets[3]], "raddr-exp")))
 
+\* "host" values in every spelling of an IP literal (uncompressed, upper case, IPv4-mapped, zone, leading zeros) and a name: an option value is
+\* a string, and the constructor stores the string it was given
+HostSpellings == << << 50, 48, 48, 49, 58, 100, 98, 56, 58, 48, 58, 48, 58, 48, 58, 48, 58, 48, 58, 49 >>, << 50, 48, 48, 49, 58, 68, 66, 56, 58, 58, 49 >>, << 58, 58, 102, 102, 102, 102, 58, 49, 57, 50, 46, 48, 46, 50, 46, 49 >>, << 48, 58, 48, 58, 48, 58, 48, 58, 48, 58, 48, 58, 48, 58, 49 >>, << 50, 48, 48, 49, 58, 100, 98, 56, 58, 58, 49 >>, << 102, 101, 56, 48, 58, 58, 49, 37, 101, 116, 104, 48 >>, << 101, 120, 97, 109, 112, 108, 101, 46, 105, 50, 112 >>, << 49, 46, 50, 46, 51, 46, 52 >>, << 58, 58, 70, 70, 70, 70, 58, 49, 46, 50, 46, 51, 46, 52 >>, << 50, 48, 48, 49, 58, 48, 100, 98, 56, 58, 48, 48, 48, 48, 58, 48, 48, 48, 48, 58, 48, 48, 48, 48, 58, 48, 48, 48, 48, 58, 48, 48, 48, 48, 58, 48, 48, 48, 49 >> >>
+RAddrHostVecs ==
+  Cross2(HostSpellings, << << 78, 84, 67, 80, 50 >>, << 83, 83, 85, 50 >> >>, LAMBDA h, st :
+     One(B("NewRouterAddress", [cost |-> 5, exp |-> << >>, expneg |-> FALSE, expns |-> 0, style |-> st,
+                                pairs |-> << << << 104, 111, 115, 116 >>, h >>, << << 112, 111, 114, 116 >>, << 48, 56, 48 >> >>, << << 99, 97, 112, 115 >>, << 66, 67 >> >> >>], "raddr-host-spelling")))
+
 (****************************** leases **************************************)
 Tids == << << 0, 0, 0, 0 >>, << 0, 0, 0, 1 >>, << 255, 255, 255, 255 >>, << 18, 52, 86, 120 >> >>
 LeaseSecs == Secs \o << << 255, 255, 255, 254 >>, << 1, 0, 0, 0, 1 >>, << 0, 0, 0, 7, 65, 91, 238, 128 >> >>
@@ -184,7 +192,7 @@ MappingVecs ==
   \* unicode and delimiter bytes
   \o SeqMap(LAMBDA fn : BM(fn, << << << 195, 169 >>, << 226, 130, 172 >> >>, << << 61 >>, << 59 >> >>, << << 59 >>, << 61 >> >>, << << 0 >>, << 255 >> >> >>, 20, "bytes"), MapFns)
 
-Vecs == CASE Fam = "cert" -> CertVecs [] Fam = "keycert" -> KeyCertVecs [] Fam = "ident" -> IdentVecs \o IdentVecs2 [] Fam = "raddr" -> RAddrVecs
+Vecs == CASE Fam = "cert" -> CertVecs [] Fam = "keycert" -> KeyCertVecs [] Fam = "ident" -> IdentVecs \o IdentVecs2 [] Fam = "raddr" -> RAddrVecs \o RAddrHostVecs
           [] Fam = "lease" -> LeaseVecs [] Fam = "offsig" -> OffVecs [] Fam = "ls2" -> LS2Vecs [] Fam = "mapping" -> MappingVecs
           [] OTHER -> CertVecs \o KeyCertVecs \o IdentVecs \o IdentVecs2 \o RAddrVecs \o LeaseVecs \o OffVecs \o LS2Vecs \o MappingVecs
 
